@@ -92,7 +92,7 @@ static void prop(Tape &t, Ctx &c) {
             psOcspResponseUninit(&resp);
         }
         psX509FreeCert(ca); psX509FreeCert(srv);
-        leak.check(fmt("rc=%d", rc));
+        C09_LEAK_CHECK(leak, "rc=%d", rc);
     }
     if (rc >= 0) { c.count("parsed"); if (vrc == PS_SUCCESS) c.count("parsed.validated"); else if (vrc != -99) c.count("parsed.validation-failed"); }
     else if (rc >= PS_OCSP_MALFORMED_REQUEST && rc <= PS_OCSP_UNAUTHORIZED) c.count("rejected.status");
